@@ -65,25 +65,10 @@ func frameTransportEffects(c *core.Ctx, R string) {
 				units = append(units, u.AllUnits()...)
 			}
 		}
-		nIs, nRet, nErr, nStop := 0, 0, 0, 0
-		for _, u := range units {
-			info := u.Info()
+		// errors.Is(err, net.ErrClosed) diamonds: close on the closed edge, error on the other
+		diamonds := func(u *core.Unit, emClose, emErr []*Ev) int {
 			g := u.Graph()
-			evs := events(c, u)
-			emErr := filterEv(evs, "emit", "conn", "error")
-			emClose := filterEv(evs, "emit", "conn", "close")
-			var emitLocs []core.Loc
-			for _, e := range emErr {
-				emitLocs = append(emitLocs, e.Loc)
-			}
-			for _, e := range emClose {
-				emitLocs = append(emitLocs, e.Loc)
-			}
-			for _, e := range emErr {
-				nErr++
-				c.Check(R, keyf("%s/Emit(error)-on-an-error-edge", u.Key), e.Pos(), g.GuardedBy(e.Loc, gErrNonNil()), "an error is reported only where one was observed")
-			}
-			// errors.Is(err, net.ErrClosed) diamonds
+			n := 0
 			for _, f := range g.Facts() {
 				if f.Br.IsCase || f.Edge != 0 {
 					continue
@@ -100,7 +85,7 @@ func frameTransportEffects(c *core.Ctx, R string) {
 					}
 					return 0
 				}
-				nIs++
+				n++
 				okClose, okErr := false, false
 				for _, e := range emClose {
 					if g.GuardedBy(e.Loc, isClosed) {
@@ -129,13 +114,29 @@ func frameTransportEffects(c *core.Ctx, R string) {
 				}
 				c.Check(R, keyf("%s/ErrClosed→close,else→error", u.Key), ce.Pos(), okClose && okErr, keyf("Emit(close) on the closed edge: %v; Emit(error) on the other: %v", okClose, okErr))
 			}
-			// early returns
-			closeFrame := func(x *core.Unit, br core.Branch) int {
-				if br.IsCase && strings.HasSuffix(selPath(br.Cond), "CloseMessage") {
-					return 1
-				}
-				return 0
+			return n
+		}
+		nIs, nRet, nErr, nStop := 0, 0, 0, 0
+		for _, u := range units {
+			info := u.Info()
+			g := u.Graph()
+			evs := events(c, u)
+			emErr := filterEv(evs, "emit", "conn", "error")
+			emClose := filterEv(evs, "emit", "conn", "close")
+			var emitLocs []core.Loc
+			for _, e := range emErr {
+				emitLocs = append(emitLocs, e.Loc)
 			}
+			for _, e := range emClose {
+				emitLocs = append(emitLocs, e.Loc)
+			}
+			for _, e := range emErr {
+				nErr++
+				c.Check(R, keyf("%s/Emit(error)-on-an-error-edge", u.Key), e.Pos(), g.GuardedBy(e.Loc, gErrNonNil()), "an error is reported only where one was observed")
+			}
+			nIs += diamonds(u, emClose, emErr)
+			// early returns
+			closeFrame := eqNamedConst("CloseMessage")
 			rets := returnsIn(u)
 			for i, r := range rets {
 				if i == len(rets)-1 && r.Stmt.Pos() >= u.Body.End()-2 {
@@ -167,6 +168,18 @@ func frameTransportEffects(c *core.Ctx, R string) {
 			}
 			_ = info
 		}
+		// a diamond inside a private helper that reports the failure stands for one per call of the helper
+		for _, u := range units {
+			for _, h := range u.WithHelpers()[1:] {
+				evs := events(c, h)
+				per := diamonds(h, filterEv(evs, "emit", "conn", "close"), filterEv(evs, "emit", "conn", "error"))
+				for _, cl := range u.Calls() {
+					if cl.Inlined == nil && cl.Callee != nil && u.Prog.UnitOf(cl.Callee) == h {
+						nIs += per
+					}
+				}
+			}
+		}
 		c.Need(R, "ErrClosed tests in "+sp.typ, nIs, 6)
 		c.Need(R, "failure reports in send/write of "+sp.typ, nStop, 2)
 		_ = nRet
@@ -187,14 +200,7 @@ func frameTransportEffects(c *core.Ctx, R string) {
 		// ---- reader loop specifics ----
 		if u := c.Fn(R, base+"message"); u != nil {
 			g := u.Graph()
-			isCase := func(name string) core.Guard {
-				return func(x *core.Unit, br core.Branch) int {
-					if br.IsCase && strings.HasSuffix(selPath(br.Cond), name) {
-						return 1
-					}
-					return 0
-				}
-			}
+			isCase := eqNamedConst
 			requireEffects(c, R, u, []effect{
 				{name: "Binary→BytesBuffer", match: mName("NewBytesBuffer"), on: []core.Guard{isCase("BinaryMessage")}},
 				{name: "Text→StringBuffer", match: mName("NewStringBuffer"), on: []core.Guard{isCase("TextMessage")}},
